@@ -28,8 +28,15 @@ ASSUMPTIONS = ["RabbitMQ dead-letters a nacked (requeue=False) message to the qu
 
 
 def run(ctx: Ctx) -> None:
+    from .shared import fresh_defaults
+
+    with ctx.as_rule("R-C12-CLOCK"):
+        fresh_defaults(ctx, "R-C12-CLOCK")  # the time-to-live clock starts when the object is built, not when the module was imported
     gate(ctx)
     overdue_siblings(ctx, "R-C12-CMP")
+    from .shared import clock_family
+
+    clock_family(ctx, "R-C12-CMP")
     deadown(ctx)
     check_prepare_reschedule(ctx, "R-C12-CLOCK")
     check_prepare_retry(ctx, "R-C12-CLOCK")
